@@ -99,6 +99,17 @@ theorem C12_suppress (lit : Str) :
 theorem C12_unless (b : Bool) : invoke (.unless b e) c = if b then ({}, []) else invoke e c := by
   cases b <;> simp [invoke]
 
+/-- `TagF` / `StyleF` with a function of the value: exactly the tag / style changes, to the function's result on the candidate's own value -/
+theorem C12_tagF : invoke (.tagF e) c = ((invoke e c).1, (invoke e c).2.map (fun v => { v with tag := tagOfValue v.value })) := by
+  simp [invoke, mapValues]
+
+theorem C12_styleF : invoke (.styleF e) c = ((invoke e c).1, (invoke e c).2.map (fun v => { v with style := styleOfValue v.value })) := by
+  simp [invoke, mapValues]
+
+/-- `UnlessF`: nothing when the condition holds for the Context, the untouched action otherwise -/
+theorem C12_unlessF (t : Test) : invoke (.unlessF t e) c = if t.eval c then ({}, []) else invoke e c := by
+  simp [invoke]
+
 /-- `Shift` affects only the args -/
 theorem C12_shift (n : Nat) : invoke (.shift n e) c = invoke e { c with args := c.args.drop n } := by
   have : ¬ ((n : Int) < 0) := by omega
